@@ -71,7 +71,9 @@ P = {
          "it for all contents; proved for single-byte corruption and truncation at EOF)."),
  "C11": ("Rocq theorems: on a trace that syncs after every write, at every crash point each file's durable content is its volatile content "
          "minus at most the record whose write was in flight (power_loss_loses_at_most_inflight_write), so every power-loss image is a "
-         "process-crash image of C10. Tie: the real trace of every run is checked against that protocol predicate and durable images "
+         "process-crash image of C10; PowerLoss.v closes the chain for the engine: the trace its Commit issues obeys the protocol, the durable "
+         "directory at every cut point is a 'first k records' directory (or that plus the freshly created next segment), and opening its bytes "
+         "recovers the pre-transaction state (k<n) or the committed one (k=n) in every reachable world. Tie: the real trace of every run is checked against that protocol predicate and durable images "
          "(unsynced writes dropped / kept / torn) are opened with the real Open; power-loss images at every mutation point of Merge "
          "(mergepower) and in the sparse index mode (powersparse). KNOWN FINDING F32 (sparse mode, see C09).",
          "Assumes, as the property states, that a sync also makes the directory entry durable; removals are treated as durable (their "
